@@ -261,7 +261,7 @@ class Loader(yaml.SafeLoader):
         except SeasoningError as e:
             # raised by Node.get_attribute() for duplicate keys
             raise RecognitionError(
-                    '{}\n{}'.format(node.start_mark, e.args[0]))
+                    '{}\n{}'.format(node.start_mark, str(e)))
 
         if len(recognized_types) != 1:
             raise RecognitionError(format_rec_error(result))
@@ -283,7 +283,7 @@ class Loader(yaml.SafeLoader):
                 node = self.__savorize(node, recognized_type)
             except SeasoningError as e:
                 raise RecognitionError(
-                        '{}\n{}'.format(node.start_mark, e.args[0]))
+                        '{}\n{}'.format(node.start_mark, str(e)))
         logger.debug('Savorized, now {}'.format(node))
 
         # process subnodes
@@ -325,7 +325,7 @@ class Loader(yaml.SafeLoader):
                             subnode = cnode.get_attribute(attr_name)
                         except SeasoningError as e:
                             raise RecognitionError('{}\n{}'.format(
-                                node.start_mark, e.args[0]))
+                                node.start_mark, str(e)))
                         new_subnode = self.__process_node(
                             subnode.yaml_node, type_)
                         cnode.set_attribute(attr_name, new_subnode)
